@@ -64,6 +64,17 @@ pub fn nesting(piece: &[u8]) -> usize {
     max
 }
 
+/// The members the protocol defines, built as values; everything else is skipped unread.
+#[derive(serde_derive::Deserialize)]
+#[allow(dead_code)]
+struct KnownMembers {
+    method: Option<Value>,
+    more: Option<Value>,
+    oneway: Option<Value>,
+    upgrade: Option<Value>,
+    parameters: Option<Value>,
+}
+
 pub fn classify(piece: &[u8]) -> Class {
     if std::str::from_utf8(piece).is_err() {
         return Class::Malformed("not UTF-8");
@@ -74,7 +85,17 @@ pub fn classify(piece: &[u8]) -> Class {
     }
     let v: Value = match serde_json::from_slice(piece) {
         Ok(v) => v,
-        Err(_) => return Class::Malformed("not JSON"),
+        Err(_) => {
+            // the text may still follow the JSON grammar: a number outside the decoder's range or a
+            // lone surrogate escape is rejected when a value is built but skipped unread inside a
+            // member the request type does not know (found by the c06_handle campaign:
+            // {"method":"...","x":222222222e2222232222}). Grammatical JSON that only the value
+            // builder rejects is not "invalid JSON": no verdict either way.
+            if serde_json::from_slice::<serde::de::IgnoredAny>(piece).is_ok() && serde_json::from_slice::<KnownMembers>(piece).is_ok() {
+                return Class::Unspecified("JSON by grammar; a value no decoder can build (number range, lone surrogate) sits in a member the protocol does not define");
+            }
+            return Class::Malformed("not JSON");
+        }
     };
     let o = match &v {
         Value::Object(o) => o,
